@@ -729,7 +729,7 @@ def restrict_for_roundtrip(A):
         if x['form'] == 'inline' and x['kind'] == '<>':
             x['form'] = 'short'                                  # D31 a many-to-many inline reference is rendered standalone, after the tables
         if x['name'] is not None:
-            x['name'] = bare(x['name'], 'fk_%d' % n)             # D8 reference names are rendered bare
+            x['name'] = bare(x['name'], 'fkx_%d' % n)            # D8 reference names are rendered bare (the substitute is not a name of the pool)
     for g in A['groups']:
         g['note'] = clean(g['note'])
     for n, s_ in enumerate(A['stickies']):
